@@ -23,10 +23,10 @@ func tri(b bool) Tri {
 
 // Class is the reference classification of a type-consistent schema, from the documented rules.
 type Class struct {
-	Kind                                                  string // prim | empty | object | map | array | tuple | unknown
-	Known, Simple, Array, SimpleArray, Map, SimpleMap     Tri
-	Extended, Tuple, TupleExtra                           Tri
-	Consistent                                            bool // false: outside the grammar the rules speak about (no expectation)
+	Kind                                              string // prim | empty | object | map | array | tuple | unknown
+	Known, Simple, Array, SimpleArray, Map, SimpleMap Tri
+	Extended, Tuple, TupleExtra                       Tri
+	Consistent                                        bool // false: outside the grammar the rules speak about (no expectation)
 }
 
 var strfmtNames = map[string]bool{"date": true, "date-time": true, "uuid": true, "byte": true, "email": true, "int32": true, "int64": true, "float": true, "double": true}
